@@ -7,6 +7,7 @@ package rules
 import (
 	"fmt"
 	"go/token"
+	"go/types"
 	"sort"
 	"strings"
 
@@ -66,7 +67,7 @@ var carryTable = map[string]struct {
 // Everything else (a dropped primary carry of a VV kernel, a VW whose source and destination
 // differ, a scalar that is not a carry) stays subject to the per-function table.
 func carryShapeOK(m *model.Model, call *ssa.Call) string {
-	cal := call.Call.StaticCallee()
+	cal := model.Unthunk(call.Call.StaticCallee())
 	if cal != nil && cal.Name() == "sub10VV" && len(call.Call.Args) == 3 {
 		// (R) |a-b|: `if sub10VV(d, a, b) != 0 { sub10VV(d, b, a) }` — the first subtraction's borrow
 		// said b > a, so the swapped one cannot borrow
@@ -88,7 +89,7 @@ func carryShapeOK(m *model.Model, call *ssa.Call) string {
 				borrowed = 1
 			}
 			first, ok := stripConv(bo.X).(*ssa.Call)
-			if !ok || first.Call.StaticCallee() != cal || len(first.Call.Args) != 3 {
+			if !ok || model.Unthunk(first.Call.StaticCallee()) != cal || len(first.Call.Args) != 3 {
 				continue
 			}
 			if z, ok := model.ConstInt(bo.Y); !ok || z != 0 {
@@ -104,6 +105,36 @@ func carryShapeOK(m *model.Model, call *ssa.Call) string {
 		}
 		return ""
 	}
+	if cal != nil && cal.Name() == "div10VWW" && len(call.Call.Args) == 4 && sameSliceExpr(call.Call.Args[0], call.Call.Args[1]) {
+		// (U) un-scaling: the buffer is divided in place by the very factor it was multiplied with
+		// earlier (mulAdd10VWW(buf', src, d, 0) with buf' the same storage, dominating): the division
+		// is exact, the remainder is 0
+		if k, ok := model.ConstInt(call.Call.Args[3]); ok && k == 0 {
+			d := stripConv(call.Call.Args[2])
+			fn := call.Parent()
+			for _, b := range fn.Blocks {
+				for _, in := range b.Instrs {
+					c2, ok := in.(*ssa.Call)
+					if !ok || model.Unthunk(c2.Call.StaticCallee()) == nil || model.Unthunk(c2.Call.StaticCallee()).Name() != "mulAdd10VWW" || len(c2.Call.Args) != 4 {
+						continue
+					}
+					if stripConv(c2.Call.Args[2]) != d || !m.InstrDominates(c2, call) {
+						continue
+					}
+					if k2, ok := model.ConstInt(c2.Call.Args[3]); !ok || k2 != 0 {
+						continue
+					}
+					ra, rb := m.RootsOf(c2.Call.Args[0]), m.RootsOf(call.Call.Args[0])
+					for l := range ra {
+						if rb[l] && l != "nil" {
+							return "the buffer is divided by the factor it was multiplied with: exact"
+						}
+					}
+				}
+			}
+		}
+		return ""
+	}
 	if cal != nil && cal.Name() == "shr10VU" {
 		// (S) a right shift drops the digits it shifts out: that is its purpose
 		return "digits shifted out to the right are dropped by definition"
@@ -112,7 +143,7 @@ func carryShapeOK(m *model.Model, call *ssa.Call) string {
 		// (N) in-place left shift by the number of leading zero digits of the top word: nothing
 		// can be shifted out (what dnorm does)
 		if c, ok := stripConv(call.Call.Args[2]).(*ssa.Call); ok {
-			if c2 := c.Call.StaticCallee(); c2 != nil && c2.Name() == "nlz10" {
+			if c2 := model.Unthunk(c.Call.StaticCallee()); c2 != nil && c2.Name() == "nlz10" {
 				return "in-place shift by nlz10 of the top word"
 			}
 		}
@@ -120,7 +151,7 @@ func carryShapeOK(m *model.Model, call *ssa.Call) string {
 			all := len(ph.Edges) > 0
 			for _, e := range ph.Edges {
 				c, ok := stripConv(e).(*ssa.Call)
-				if !ok || c.Call.StaticCallee() == nil || c.Call.StaticCallee().Name() != "nlz10" {
+				if !ok || model.Unthunk(c.Call.StaticCallee()) == nil || model.Unthunk(c.Call.StaticCallee()).Name() != "nlz10" {
 					all = false
 				}
 			}
@@ -147,7 +178,7 @@ func carryShapeOK(m *model.Model, call *ssa.Call) string {
 		}
 		switch x := stripConv(v).(type) {
 		case *ssa.Call:
-			c2 := x.Call.StaticCallee()
+			c2 := model.Unthunk(x.Call.StaticCallee())
 			return c2 != nil && m.InDecimalPkg(c2) && carryKernels[c2.Name()]
 		case *ssa.Phi:
 			for _, e := range x.Edges {
@@ -285,7 +316,7 @@ func runCarry(m *model.Model, s *ob.Set) {
 				if !ok {
 					continue
 				}
-				cal := call.Call.StaticCallee()
+				cal := model.Unthunk(call.Call.StaticCallee())
 				if cal == nil || !m.InDecimalPkg(cal) || !carryKernels[cal.Name()] {
 					continue
 				}
@@ -365,7 +396,7 @@ func runPool(m *model.Model, s *ob.Set) {
 				continue
 			}
 			for _, in := range b.Instrs {
-				if c, ok := in.(*ssa.Call); ok && c.Call.StaticCallee() == getDec {
+				if c, ok := in.(*ssa.Call); ok && model.Unthunk(c.Call.StaticCallee()) == getDec {
 					gets = append(gets, c)
 				}
 			}
@@ -536,11 +567,26 @@ func isNonElementwise(m *model.Model, fn *ssa.Function) bool {
 			return false
 		}
 	}
-	return nslices >= 2 && m.ElemWrites(fn)["P0"]
+	if !(nslices >= 2 && m.ElemWrites(fn)["P0"]) {
+		return false
+	}
+	// a routine that tests its own destination for overlap (alias(z, …) on parameter 0) looks after
+	// itself: its callers need no guard of their own
+	for _, b := range fn.Blocks {
+		for _, in := range b.Instrs {
+			if cal, c := model.Callee(in); cal != nil && m.InDecimalPkg(cal) && (cal.Name() == "alias" || cal.Name() == "same") && len(c.Args) == 2 {
+				if m.RootsOf(c.Args[0])["P0"] || m.RootsOf(c.Args[1])["P0"] {
+					return false
+				}
+			}
+		}
+	}
+	return true
 }
 
 func runAliasGuard(m *model.Model, s *ob.Set) {
 	const R = "ALIASGUARD"
+	runAliasSkip(m, s)
 	aliasFn := m.Lookup("alias")
 	for _, fn := range m.Funcs {
 		if !m.InDecimalPkg(fn) || inKernelLayer(m, fn) || len(fn.Params) == 0 || !m.IsWordSlice(fn.Params[0].Type()) {
@@ -551,6 +597,7 @@ func runAliasGuard(m *model.Model, s *ob.Set) {
 		}
 		live := m.Live(fn)
 		need := map[int]string{} // source param index -> position of the first non-elementwise call
+		needAt := map[int][]ssa.Instruction{}
 		for _, b := range fn.Blocks {
 			if !live[b.Index] {
 				continue
@@ -575,6 +622,7 @@ func runAliasGuard(m *model.Model, s *ob.Set) {
 							if _, ok := need[j]; !ok {
 								need[j] = m.InstrPos(in)
 							}
+							needAt[j] = append(needAt[j], in)
 						}
 					}
 				}
@@ -590,13 +638,14 @@ func runAliasGuard(m *model.Model, s *ob.Set) {
 			// the guard: alias(a, b) with roots P0 / Pj used as a branch condition whose true edge
 			// replaces the result buffer (a φ of the buffer value with nil)
 			guard := false
+			unguardedAt := ""
 			for _, b := range fn.Blocks {
 				if !live[b.Index] {
 					continue
 				}
 				for _, in := range b.Instrs {
 					call, ok := in.(*ssa.Call)
-					if !ok || call.Call.StaticCallee() != aliasFn {
+					if !ok || model.Unthunk(call.Call.StaticCallee()) != aliasFn {
 						continue
 					}
 					r0, r1 := m.RootsOf(call.Call.Args[0]), m.RootsOf(call.Call.Args[1])
@@ -623,15 +672,151 @@ func runAliasGuard(m *model.Model, s *ob.Set) {
 							}
 							for ei, ed := range ph.Edges {
 								if k, ok := ed.(*ssa.Const); ok && k.IsNil() && m.Dominates(tb, pb.Preds[ei]) {
-									guard = true
+									// … and the test stands in front of every such call (a guard inside
+									// one branch does not protect the call in the other)
+									all := true
+									for _, site := range needAt[j] {
+										// the join that carries the dropped buffer stands in front of the
+										// call, and whatever else comes into it has seen the test fail
+										// (alias(z, x) || alias(z, y): the second test is not on every way,
+										// but every way into the join is past a failed test or the drop)
+										okSite := m.Dominates(pb, site.Block())
+										for e2, ed2 := range ph.Edges {
+											if k2, isNil := ed2.(*ssa.Const); isNil && k2.IsNil() {
+												continue
+											}
+											pr := pb.Preds[e2]
+											past := (pr == call.Block() && call.Block().Succs[1] == pb) || m.EdgeDominates(call.Block(), 1, pr)
+											if !past {
+												okSite = false
+											}
+										}
+										if !okSite && !m.Dominates(call.Block(), site.Block()) {
+											all = false
+											unguardedAt = m.InstrPos(site)
+										}
+									}
+									if all {
+										guard = true
+									}
 								}
 							}
 						}
 					}
 				}
 			}
+			if !guard && unguardedAt != "" {
+				s.Bad(R, c, need[j], fmt.Sprintf("the alias test of %s and %s does not stand in front of the non-elementwise call at %s: on that way overlapping operands are overwritten while still being read", fn.Params[0].Name(), fn.Params[j].Name(), unguardedAt))
+				continue
+			}
 			s.Check(guard, R, c, need[j], "alias test present; the aliased buffer is dropped", fmt.Sprintf("%s hands its own buffer %s to a non-elementwise routine that reads %s (at %s) without first testing alias(%s, %s) and dropping the buffer: overlapping operands would be overwritten while still being read", m.FuncName(fn), fn.Params[0].Name(), fn.Params[j].Name(), need[j], fn.Params[0].Name(), fn.Params[j].Name()))
 		}
+	}
+}
+
+// runAliasSkip: `if !alias(z, w) { copy(z..., s...) }` — leaving a copy out when the destination
+// shares its array with w says "the words are there already", which can only be meant of w: the
+// source of the copy that is skipped must be w. A copy into z from x that is skipped when z
+// aliases y (z.sub(x, z) in usub) leaves the previous contents of z in the result.
+func runAliasSkip(m *model.Model, s *ob.Set) {
+	const R = "ALIASGUARD"
+	aliasFn := m.Lookup("alias")
+	setFn := m.TryLookup("dec.set")
+	overlap := func(a, b model.RootSet) bool {
+		for l := range a {
+			if b[l] {
+				return true
+			}
+		}
+		return false
+	}
+	n := 0
+	for _, fn := range m.Funcs {
+		if !m.InDecimalPkg(fn) || len(fn.Blocks) == 0 || fn.Synthetic != "" {
+			continue
+		}
+		live := m.Live(fn)
+		type test struct {
+			b    *ssa.BasicBlock
+			si   int // the edge on which the operands do not alias
+			a, c model.RootSet
+			pos  string
+		}
+		var tests []test
+		k := 0
+		for _, b := range fn.Blocks {
+			if !live[b.Index] || len(b.Instrs) == 0 {
+				continue
+			}
+			ifi, ok := b.Instrs[len(b.Instrs)-1].(*ssa.If)
+			if !ok {
+				continue
+			}
+			cond, si := ifi.Cond, 1
+			if u, ok := cond.(*ssa.UnOp); ok && u.Op == token.NOT {
+				cond, si = u.X, 0
+			}
+			call, ok := cond.(*ssa.Call)
+			if !ok || model.Unthunk(call.Call.StaticCallee()) != aliasFn {
+				continue
+			}
+			tests = append(tests, test{b, si, m.RootsOf(call.Call.Args[0]), m.RootsOf(call.Call.Args[1]), m.InstrPos(call)})
+		}
+		if len(tests) == 0 {
+			continue
+		}
+		for _, b := range fn.Blocks {
+			if !live[b.Index] {
+				continue
+			}
+			for _, in := range b.Instrs {
+				call, ok := in.(*ssa.Call)
+				if !ok {
+					continue
+				}
+				var dst, src ssa.Value
+				switch {
+				case model.BuiltinName(&call.Call) == "copy" && m.IsWordSlice(call.Call.Args[0].Type()):
+					dst, src = call.Call.Args[0], call.Call.Args[1]
+				case setFn != nil && model.Unthunk(call.Call.StaticCallee()) == setFn:
+					dst, src = call.Call.Args[0], call.Call.Args[1]
+				default:
+					continue
+				}
+				rd, rs := m.RootsOf(dst), m.RootsOf(src)
+				about, matched := "", false
+				for _, t := range tests {
+					if !m.EdgeDominates(t.b, t.si, b) {
+						continue
+					}
+					// the edge on which they do alias must not lead here as well
+					switch {
+					case overlap(rd, t.a):
+						if overlap(rs, t.c) {
+							matched = true
+						} else {
+							about = t.pos
+						}
+					case overlap(rd, t.c):
+						if overlap(rs, t.a) {
+							matched = true
+						} else {
+							about = t.pos
+						}
+					}
+				}
+				if about == "" && !matched {
+					continue
+				}
+				n++
+				k++
+				c := fmt.Sprintf("%s/alias-skip#%d", m.FuncName(fn), k)
+				s.Check(matched, R, c, m.InstrPos(in), "a copy left out when the destination aliases its own source", fmt.Sprintf("this copy is left out when the destination shares its array with another operand (test at %s), but the words it would write come from a different one: the destination then keeps what it held before", about))
+			}
+		}
+	}
+	if n == 0 {
+		s.Note(R, "alias-skip", "-", "no copy guarded by an alias test in this tree")
 	}
 }
 
@@ -666,7 +851,7 @@ func runGuard(m *model.Model, s *ob.Set) {
 				continue
 			}
 			call, ok := bo.X.(*ssa.Call)
-			if !ok || call.Call.StaticCallee() != ucmp {
+			if !ok || model.Unthunk(call.Call.StaticCallee()) != ucmp {
 				continue
 			}
 			if k, ok := model.ConstInt(bo.Y); !ok || k != 0 {
@@ -690,7 +875,7 @@ func runGuard(m *model.Model, s *ob.Set) {
 			}
 			for _, in := range b.Instrs {
 				call, ok := in.(*ssa.Call)
-				if !ok || call.Call.StaticCallee() != usub {
+				if !ok || model.Unthunk(call.Call.StaticCallee()) != usub {
 					continue
 				}
 				n++
@@ -849,7 +1034,7 @@ func runSign(m *model.Model, s *ob.Set) {
 						continue
 					}
 					bo, ok := ifi.Cond.(*ssa.BinOp)
-					if !ok || bo.Op != token.EQL {
+					if !ok || (bo.Op != token.EQL && bo.Op != token.NEQ) {
 						continue
 					}
 					lf, ok := m.LoadOfDecField(bo.X)
@@ -860,7 +1045,13 @@ func runSign(m *model.Model, s *ob.Set) {
 					if !ok || kz.Value == nil || kz.Value.ExactString() != m.PkgConst("zero").ExactString() {
 						continue
 					}
-					if m.EdgeDominates(gb, 0, h.st.Block()) {
+					// the edge on which the form is zero: true edge of ==, false edge of != (an
+					// early return for everything else)
+					zeroEdge := 0
+					if bo.Op == token.NEQ {
+						zeroEdge = 1
+					}
+					if m.EdgeDominates(gb, zeroEdge, h.st.Block()) {
 						guarded = true
 					}
 				}
@@ -940,7 +1131,7 @@ func exprKey(m *model.Model, v ssa.Value, depth int) string {
 			}
 			return n + "(" + strings.Join(a, ",") + ")"
 		}
-		if cal := x.Call.StaticCallee(); cal != nil {
+		if cal := model.Unthunk(x.Call.StaticCallee()); cal != nil {
 			var a []string
 			for _, ar := range x.Call.Args {
 				a = append(a, exprKey(m, ar, depth-1))
@@ -1237,7 +1428,8 @@ func runMustFlow(m *model.Model, s *ob.Set) {
 			}
 			for _, in := range b.Instrs {
 				if cal, c := model.Callee(in); cal == sear {
-					sinks = append(sinks, c.Args[1])
+					ei, _ := searArgs(sear)
+					sinks = append(sinks, c.Args[ei])
 				}
 				if st, ok := in.(*ssa.Store); ok {
 					if fa, ok := m.DecField(st.Addr); ok && fa.Field == m.F.Exp {
@@ -1253,7 +1445,7 @@ func runMustFlow(m *model.Model, s *ob.Set) {
 			}
 			for _, in := range b.Instrs {
 				call, ok := in.(*ssa.Call)
-				if !ok || call.Call.StaticCallee() != dnorm {
+				if !ok || model.Unthunk(call.Call.StaticCallee()) != dnorm {
 					continue
 				}
 				n++
@@ -1278,7 +1470,8 @@ func runMustFlow(m *model.Model, s *ob.Set) {
 		for _, b := range fn.Blocks {
 			for _, in := range b.Instrs {
 				if cal, c := model.Callee(in); cal == sear {
-					arg = c.Args[1]
+					ei, _ := searArgs(sear)
+					arg = c.Args[ei]
 				}
 			}
 		}
@@ -1302,7 +1495,7 @@ func runMustFlow(m *model.Model, s *ob.Set) {
 						for _, b2 := range fn.Blocks {
 							for _, in2 := range b2.Instrs {
 								if st, ok := in2.(*ssa.Store); ok {
-									if fa, ok := m.DecField(st.Addr); ok && fa.Field == m.F.Mant && stripConvAny(st.Val) == stripConvAny(a) {
+									if fa, ok := m.DecField(st.Addr); ok && fa.Field == m.F.Mant && sameThroughPhi(st.Val, a) {
 										lenZ = true
 									}
 								}
@@ -1345,7 +1538,8 @@ func runMustFlow(m *model.Model, s *ob.Set) {
 						}
 					}
 					if cal == sear {
-						sbs = append(sbs, sbSite{c.Args[2], b})
+						_, si := searArgs(sear)
+						sbs = append(sbs, sbSite{c.Args[si], b})
 					}
 				}
 			}
@@ -1632,4 +1826,44 @@ func cmpBothExhausted(m *model.Model, s *ob.Set, fn *ssa.Function) {
 		return
 	}
 	s.Check(bad == "", R, c, m.Pos(fn.Pos()), "the `equal` exit is guarded by loop conditions over both mantissa lengths", bad)
+}
+
+// searArgs: the positions of the exponent (the 64-bit signed parameter) and of the sticky bit (the
+// unsigned one) among the arguments of setExpAndRound, receiver included — by type, not by order.
+func searArgs(sear *ssa.Function) (expIdx, sbitIdx int) {
+	expIdx, sbitIdx = 1, 2
+	if sear == nil {
+		return
+	}
+	for i, p := range sear.Params {
+		if i == 0 {
+			continue
+		}
+		if bt, ok := p.Type().Underlying().(*types.Basic); ok {
+			switch {
+			case bt.Kind() == types.Int64:
+				expIdx = i
+			case bt.Info()&types.IsUnsigned != 0:
+				sbitIdx = i
+			}
+		}
+	}
+	return
+}
+
+// sameThroughPhi: stored is the slice a, or a join of several ways that all carry a.
+func sameThroughPhi(stored, a ssa.Value) bool {
+	sv, av := stripConvAny(stored), stripConvAny(a)
+	if sv == av {
+		return true
+	}
+	if ph, ok := sv.(*ssa.Phi); ok && len(ph.Edges) > 0 {
+		for _, e := range ph.Edges {
+			if stripConvAny(e) != av {
+				return false
+			}
+		}
+		return true
+	}
+	return false
 }
